@@ -198,6 +198,33 @@ struct Gen {
         st.null_map = inorder && c.boolean();
         gen_shape(st, force_full); finish(st); return st;
     }
+    // sparse k-port standard (k >= 3): a few signal paths between its ports (chains, possibly one-directional),
+    // every other off-diagonal cell the predefined VNACAL_ZERO handle -- the connectivity classes of such a
+    // standard are formed transitively, through ports that are not the first of their class
+    Standard sparse_multiport(const std::vector<int> &ports, bool force_full = false) {
+        Standard st; st.entry = Standard::MAPPED; st.k = (int)ports.size(); st.ports = ports;
+        int k = st.k;
+        SCell z; z.kind = SCell::MATCH; z.v.assign(sc.F, C(0, 0));
+        st.cells.assign((size_t)k * k, z);
+        for (int i = 0; i < k; i++) st.cells[i * k + i] = make_cell(c, sc.F, rnd_disk(c, 0, 0.6L));
+        // random edge order over a random spanning chain, optionally dropping one edge (two classes) and
+        // optionally adding a chord; edges are reciprocal or one-directional
+        std::vector<int> order; for (int i = 0; i < k; i++) order.push_back(i);
+        for (int i = k; i > 1; i--) std::swap(order[i - 1], order[c.draw(i)]);
+        int drop = c.chance(1, 4) ? (int)c.draw(k - 1) : -1;
+        auto edge = [&](int a, int b) {
+            int how = c.weighted({3, 1, 1});
+            C v = rnd_disk(c, 0.4L, 0.9L);
+            if (how != 2) st.cells[a * k + b] = make_cell(c, sc.F, v, false);
+            if (how != 1) st.cells[b * k + a] = make_cell(c, sc.F, how == 0 ? v : rnd_disk(c, 0.4L, 0.9L), false);
+        };
+        for (int i = 0; i + 1 < k; i++) if (i != drop) edge(order[i], order[i + 1]);
+        if (k >= 4 && c.chance(1, 3)) edge(order[0], order[k - 1]);
+        bool inorder = k == sc.P; for (int i = 0; i < k; i++) if (ports[i] != i) inorder = false;
+        st.null_map = inorder && c.boolean();
+        c.label("sparse-multiport-standard");
+        gen_shape(st, force_full); finish(st); return st;
+    }
     std::vector<int> perm_ports(int n) {    // random n distinct ports in random order
         std::vector<int> all; for (int p = 0; p < sc.P; p++) all.push_back(p);
         std::vector<int> out;
@@ -233,7 +260,8 @@ struct Gen {
     void extras() {
         int n = (int)c.draw(4);
         for (int i = 0; i < n; i++) {
-            switch (c.weighted({3, 2, 3, 2})) {
+            switch (c.weighted({3, 2, 3, 2, sc.P >= 3 ? 4u : 0u})) {
+            case 4: { int k = 3 + (int)c.draw(sc.P - 2); sc.stds.push_back(sparse_multiport(perm_ports(k))); } break;
             case 0: sc.stds.push_back(single((int)c.draw(sc.P), rnd_disk(c, 0, 1.0L))); break;
             case 1: if (sc.P >= 2) { auto pp = perm_ports(2); sc.stds.push_back(dbl(pp[0], pp[1], rnd_disk(c, 0, 1.0L), rnd_disk(c, 0, 1.0L))); } break;
             case 2: if (sc.P >= 2) { auto pp = perm_ports(2); sc.stds.push_back(through(pp[0], pp[1])); } break;
